@@ -264,7 +264,7 @@ func genC12(t *rapid.T) *Case {
 		default:
 			return Op{K: "unsubscribe", S: s, Ref: fmt.Sprintf("sub:-1:%d", uni(t, 3, "n"))}
 		}
-	}), 1, 25).Draw(t, "ops")
+	}), minHistory(t, 25), 25).Draw(t, "ops")
 	c.Ops = append(c.Ops, ops...)
 	return c
 }
